@@ -14,7 +14,7 @@ RULE = ('generated cases against the ASan+UBSan agent (wasi.c) and, for thread-s
         'linked with wasi.c: (args/environ) vectors of 0-200 strings with lengths 0..10^5 of arbitrary non-NUL bytes given to '
         'wasiInit, result buffers at generated guest placements surrounded by canaries: counts, total sizes, pointer array and '
         'NUL-terminated copies must match exactly; (clock_time_get) every clock id 0-3 sandwiched between two reads of the same '
-        'host clock in the same process (t0 <= result <= t1, ns), monotonic clock non-decreasing along the history, ids >= 4 and '
+        'host clock in the same process (t0 <= result <= t1, ns) - also after another thread of the process has burnt CPU time, which separates the per-thread from the per-process clock -, monotonic clock non-decreasing along the history, ids >= 4 and '
         'random 32-bit ids => EINVAL; (random_get) lengths {0,1,255,256,257,4096,65536,2^20, random}: success, canaries outside '
         '[p,p+len) intact, every 64-byte block inside changed, also while signals with a handler arrive every 50-200 us; (proc_exit) agent exit status == code for codes 0-255; '
         '(thread-spawn) T host threads x K spawns on one instance: returned ids distinct and positive, wasi_thread_start logged '
